@@ -7,18 +7,20 @@ open TIV.Wire TIV.Prog
 
 def excName : Exc → String := excPyName
 
+def allExcs : List Exc :=
+  [.stopIteration, .attributeError, .valueError, .sizeError, .stopDefinite, .finalizedIter, .boom,
+   .keyboardInterrupt, .unicodeError, .typeError, .keyError, .runtimeError, .osError, .generatorExit, .baseBoom]
+
+/-- an injectable exception, by the name of its Python class -/
 def pExc : Wire.P Exc := do
   let t ← word
-  match t with
-  | "StopIteration" => pure .stopIteration | "AttributeError" => pure .attributeError
-  | "RenderSizeOutofRangeError" => pure .sizeError | "Boom" => pure .boom
-  | "KeyboardInterrupt" => pure .keyboardInterrupt
-  | _ => failure
+  match allExcs.find? (fun e => excName e == t) with
+  | some e => pure e
+  | none => failure
 
 def pExcAny : Wire.P Exc := do
   let t ← word
-  match [Exc.stopIteration, .attributeError, .valueError, .sizeError, .stopDefinite, .finalizedIter, .boom,
-      .keyboardInterrupt].find? (fun e => excName e == t) with
+  match allExcs.find? (fun e => excName e == t) with
   | some e => pure e
   | none => failure
 
@@ -94,11 +96,37 @@ def objStr (w : World) (d : Nat) : String :=
   let o := w.objs d
   s!"o{d}:{if o.owner = .lib then "l" else "c"}:{o.finCalls}:{o.libFin}:{o.viaDel}:{o.renders}:{o.usedAfter}"
 
+/-- an item of a driver history: an `Op` of the model's histories, or the one-step caller scenario
+    `handover` (data and iterator collected together; not an `Op`: see `drop_both_once`) -/
+inductive HOp
+  | op (o : Op)
+  | handover (fin : Bool) (args : ArgsKind) (n : Nat) (dataFirst : Bool)
+
+def pArgs : Wire.P ArgsKind := do
+  let a ← word
+  match a with
+  | "none" => pure .none | "own" => pure .own | "ancestor" => pure .ancestor
+  | _ => failure
+
+def pHOp : Wire.P HOp := fun ts =>
+  match ts with
+  | "handover" :: rest => (do
+      let fin ← bool; let a ← pArgs; let n ← nat; let df ← bool
+      pure (HOp.handover fin a n df)) rest
+  | _ => (do let o ← pOp; pure (HOp.op o)) ts
+
+def stepH (w : World) (o : HOp) (f : Flt) : World × Option (Option Exc) :=
+  match o with
+  | .op o => stepOp w o f
+  | .handover fin a n df =>
+    match run sem (handoverP fin a n df) f w with
+    | (w', _, r) => (dropRefsFast w', some r)
+
 /-- run a history, one output field per op: `<outcome>/<events of the op>/<closed flags>` -/
-def runOut (w : World) : List (Op × Flt) → List String → World × List String
+def runOut (w : World) : List (HOp × Flt) → List String → World × List String
   | [], acc => (w, acc.reverse)
   | (op, f) :: h, acc =>
-    let r := stepOp w op f
+    let r := stepH w op f
     let evs := (r.1.trace.drop w.trace.length).map evStr
     runOut r.1 h (s!"{outcomeStr r.2}/{String.intercalate "," evs}/{closedMask r.1}" :: acc)
 
@@ -106,7 +134,7 @@ def handler : Handler := fun op args =>
   match op with
   | "hist" => Wire.run (do
       let fc ← nat
-      let h ← listOf (do let o ← pOp; let f ← pFault; pure (o, f))
+      let h ← listOf (do let o ← pHOp; let f ← pFault; pure (o, f))
       let (w, outs) := runOut (init fc) h []
       let objs := (List.range w.nObjs).map (objStr w)
       pure ("ok " ++ String.intercalate "|" outs ++ " # " ++ String.intercalate " " objs)) args
